@@ -5,7 +5,7 @@ use texlang::*;
 
 /// Get the `\chardef` command.
 pub fn get_chardef<S: TexlangState>() -> command::BuiltIn<S> {
-    command::BuiltIn::new_execution(chardef_primitive_fn)
+    command::BuiltIn::new_execution(chardef_primitive_fn).with_tag(crate::registers::countdef_tag())
 }
 
 fn chardef_primitive_fn<S: TexlangState>(
